@@ -784,25 +784,27 @@ def array_ufunc(ufunc, method, inputs, kwargs):
 def _round_to_float32(res):
     """
     A computation asked for in single precision (ufunc dtype=np.float32) on values that are NOT known to be float32 already:
-    each symbolic real x becomes a fresh real r with |r - x| <= 2^-24 |x| (round to nearest, normal range), rounding is
-    monotone and equal inputs round equally.  An over-approximation of IEEE rounding: a counterexample that depends on it
-    has to reproduce on the real code, otherwise it is reported as inconclusive.
+    each symbolic real x becomes F32(x), an uninterpreted function (so equal inputs round equally) constrained, on the terms it
+    is applied to, by |F32(x) - x| <= 2^-24 |x| (round to nearest, normal range) and monotonicity.  An over-approximation of
+    IEEE rounding: a counterexample that depends on it has to reproduce on the real code, otherwise it is inconclusive.
     """
     ctx = core.cur()
+    f32 = core.ufun("F32", z3.RealSort(), z3.RealSort())
+    seen = ctx.__dict__.setdefault("_f32_terms", [])
     flat = np.asarray(res, dtype=object).ravel().tolist() if isinstance(res, np.ndarray) else [res]
-    xs, rs = [], []
     out = []
+    eps = z3.RealVal(Fraction(1, 2 ** 24))
     for e in flat:
         if isinstance(e, SReal) and e.nan is False:
-            r = SReal(ctx.fresh_real("f32"))
-            eps = Fraction(1, 2 ** 24)
-            ax = ite(e >= 0, e, -e)
-            ctx.assume(and_(r - e <= ax * eps, e - r <= ax * eps))
-            for x0, r0 in zip(xs, rs):
-                ctx.assume(and_(implies(x0 <= e, r0 <= r), implies(e <= x0, r <= r0)))
-            xs.append(e)
-            rs.append(r)
-            out.append(r)
+            x = e.t
+            r = f32(x)
+            if not any(x.eq(y) for y in seen):
+                ax = z3.If(x >= 0, x, -x)
+                ctx.solver.add(z3.And(r - x <= ax * eps, x - r <= ax * eps))
+                for y in seen:
+                    ctx.solver.add(z3.Implies(y <= x, f32(y) <= r), z3.Implies(x <= y, r <= f32(y)))
+                seen.append(x)
+            out.append(SReal(r))
         elif isinstance(e, Sym) and not isinstance(e, (SInt, SBool)):
             raise Unsupported("single-precision rounding of this kind of symbolic value")
         elif isinstance(e, (builtins.float, np.floating)):
@@ -811,8 +813,8 @@ def _round_to_float32(res):
             out.append(e)
     if isinstance(res, np.ndarray):
         o = np.empty(len(out), dtype=object)
-        for i, v in enumerate(out):
-            o[i] = v
+        for k, v in enumerate(out):
+            o[k] = v
         return o.reshape(np.shape(res))
     return out[0]
 
